@@ -11,6 +11,19 @@ def _err(rec: Dict[str, Any], err: BaseException, jp_base) -> None:
     rec["out"] = "raise"
     rec["jp"] = isinstance(err, jp_base)
     rec["cls"] = type(err).__name__
+    try:
+        rec["msg"] = _stem(str(err.args[0]) if err.args else "")
+    except Exception:  # noqa: BLE001
+        rec["msg"] = ""
+
+
+def _stem(msg: str) -> str:
+    """Message with the variable parts (quoted text, numbers) removed."""
+    import re  # noqa: PLC0415
+
+    msg = re.sub(r"'[^']*'|\"[^\"]*\"", "'_'", msg)
+    msg = re.sub(r"\d+", "N", msg)
+    return msg[:80]
 
 
 def walk(root, location):
@@ -87,4 +100,55 @@ def rec_find(jp, q: str, doc, env=None, extra: Optional[Dict[str, Any]] = None,
     except Exception as err:  # noqa: BLE001
         _err(rec, err, jp.JSONPathError)
         rec["locs"] = []
+    return rec
+
+
+import re as _re
+
+_POS = _re.compile(r", line (\d+), column (\d+)$")
+
+
+def rec_errpos(jp, q: str, env=None):
+    """For a rejected query: the offset the error identifies and the printed line/column.
+    Returns None if the query compiles."""
+    try:
+        (env or jp).compile(q)
+        return None
+    except jp.JSONPathError as err:
+        rec: Dict[str, Any] = {"op": "errpos", "q": core.enc_text(q), "cls": type(err).__name__}
+        tok = getattr(err, "token", None)
+        rec["index"] = tok.index if tok is not None and isinstance(getattr(tok, "index", None), int) else -1
+        try:
+            msg = str(err)
+        except Exception:  # noqa: BLE001
+            msg = ""
+        m = _POS.search(msg)
+        rec["line"], rec["col"] = (int(m.group(1)), int(m.group(2))) if m else (-1, -1)
+        return rec
+    except Exception:  # noqa: BLE001
+        return None
+
+
+def rec_str(jp, q: str, docs_enc, env=None, extra=None):
+    """str() round trip of a compiled query.  Returns None if q does not compile."""
+    e = env or jp
+    try:
+        c = e.compile(q)
+    except Exception:  # noqa: BLE001
+        return None
+    rec: Dict[str, Any] = {"op": "str", "q": core.enc_text(q), "docs": docs_enc}
+    if extra:
+        rec.update(extra)
+    try:
+        s = str(c)
+    except Exception as err:  # noqa: BLE001
+        s = f"<str raised {type(err).__name__}>"
+    rec["s"] = core.enc_text(s)
+    try:
+        c2 = e.compile(s)
+        rec["recompiles"] = True
+        rec["s2"] = core.enc_text(str(c2))
+    except Exception:  # noqa: BLE001
+        rec["recompiles"] = False
+        rec["s2"] = []
     return rec
